@@ -84,7 +84,7 @@ def theorem_names_file(path):
             m = re.match(r"^end\s+(\S+)", line)
             if m and ns and ns[-1] == m.group(1):
                 ns.pop()
-            m = re.match(r"^(?:private\s+|protected\s+)?theorem\s+([^\s:({\[]+)", line)
+            m = re.match(r"^(?:protected\s+)?theorem\s+([^\s:({\[]+)", line)
             if m:
                 out.append(".".join(ns + [m.group(1)]))
     return out
